@@ -232,6 +232,14 @@ func parseJSONText(b []byte) (interface{}, error) {
 }
 
 func addJSON(e *Engine, m map[string]intrinsic) {
+	// json.Marshal / MarshalIndent: the byte-level JSON text is outside every claim; an
+	// opaque placeholder is returned (callers under test only pass it on).
+	opaqueJSON := func(p *Path, fr *frame, args []value) value {
+		p.eng.noteStub("encoding/json.Marshal (opaque placeholder text)")
+		return tupleOf(sliceOfBytes([]byte(`"<json text not modelled>"`)), iface{})
+	}
+	m["encoding/json.Marshal"] = opaqueJSON
+	m["encoding/json.MarshalIndent"] = opaqueJSON
 	m["encoding/json.Unmarshal"] = func(p *Path, fr *frame, args []value) value {
 		data, ok := concreteBytes(args[0])
 		if !ok {
